@@ -266,6 +266,31 @@ fn run_sortable(c: &ListCase) -> R {
     sorted2.push("ab".to_string());
     sorted2.sort();
     check_sorted(&v, &sorted2, "sort_after_push")?;
+    // grow again after a sort and re-sort through EVERY sort entry point (a sort that reuses the index list of the
+    // previous sort must still cover the strings pushed since)
+    for (k, extra) in ["", "b", "aa"].iter().enumerate() {
+        must(v.push_str(extra), "construct", "push_str")?;
+        sorted2.push(extra.to_string());
+        sorted2.sort();
+        let how2 = match k {
+            0 => {
+                must(v.radix_sort(), "sorted_enumeration", "radix_sort_err")?;
+                "radix_sort_after_sort_and_push"
+            }
+            1 => {
+                must(v.sort_lexicographic(), "sorted_enumeration", "sort_err")?;
+                "sort_lexicographic_after_sort_and_push"
+            }
+            _ => {
+                must(v.radix_sort(), "sorted_enumeration", "radix_sort_err")?;
+                "radix_sort_after_radix_sort_and_push"
+            }
+        };
+        check_sorted(&v, &sorted2, how2)?;
+        for p in PROBES.iter().copied().take(4) {
+            check_search(&v, &sorted2, p)?;
+        }
+    }
     // clone and clear
     let cl = v.clone();
     check_sorted(&cl, &sorted2, "clone")?;
@@ -404,7 +429,7 @@ pub fn register(reg: &mut Registry) {
     ));
     reg.add(fam(
         "SortableStrVec",
-        "all lists (any order, duplicates) of length <=4 (thorough <=5) over {\"\",\"a\",\"ab\",\"b\"} + generated lists of n in {31,32,33,100,513,1000} strings x 3 shapes (many duplicates, descending, mixed; empty strings, shared prefixes) x {from_iter, push/push_str} x {sort, radix_sort, sort_lexicographic}: insertion-order access, iter_sorted/get_sorted, binary_search, sort_by_length, sort_by(desc), push after sort, clone, clear",
+        "all lists (any order, duplicates) of length <=4 (thorough <=5) over {\"\",\"a\",\"ab\",\"b\"} + generated lists of n in {31,32,33,100,513,1000} strings x 3 shapes (many duplicates, descending, mixed; empty strings, shared prefixes) x {from_iter, push/push_str} x {sort, radix_sort, sort_lexicographic}: insertion-order access, iter_sorted/get_sorted, binary_search, sort_by_length, sort_by(desc), push after sort followed by a re-sort through sort / radix_sort / sort_lexicographic (three rounds), clone, clear",
         |tier, f: &mut dyn FnMut(ListCase) -> bool| {
             if !all_lists(tier.pick(4, 5), false, &mut |l| (0..6u8).all(|v| f(ListCase { list: l.clone(), v }))) {
                 return;
